@@ -180,10 +180,13 @@ class G:
             fs[0][0, :] = 0.0
         return ttb.ktensor(fs, np.ones(rank))
 
-    def TT(self, shape=(2, 3, 2), core=(2, 2, 2), salt=0, sparse_core=False):
+    def TT(self, shape=(2, 3, 2), core=(2, 2, 2), salt=0, sparse_core=False, sparse_factors=False):
         import pyttb as ttb
         c = self.S(core, salt + 1, "half") if sparse_core else self.T(core, salt + 1)
         fs = [self.mat(s, c_, salt=salt + 3 * n) for n, (s, c_) in enumerate(zip(shape, core))]
+        if sparse_factors:
+            from scipy import sparse
+            fs = [sparse.coo_matrix(f) for f in fs]
         return ttb.ttensor(c, fs)
 
     def SUM(self, shape=(2, 3, 2), kinds="tk", salt=0):
@@ -1924,10 +1927,20 @@ def _(g):
                         why="copy=False")
     yield V("empty", lambda: {}, lambda o: ttb.ttensor())
 
+    def fb_sp():
+        from scipy import sparse
+        sh, core = (2, 3, 2), (2, 2, 2)
+        return {"core": g.S(core, 1), "fm": [sparse.coo_matrix(g.mat(s, c, salt=3 * n)) for n, (s, c) in enumerate(zip(sh, core))]}
+    yield V("spfac-copy", fb_sp, lambda o: ttb.ttensor(o["core"], o["fm"]))
+
 
 def _tt_un_holders(g):
     for hname, hb, _ in _tt_holders(g):
         yield hname, hb
+    # scipy-sparse factor matrices (with a sparse core): the arrays inside the sparse matrices are operands too.  Only
+    # for the whole-object operations below and permute (innerprod / isequal / reconstruct / copy=False construction do
+    # not take sparse factors: they raise)
+    yield "2x3x2-spfac", (lambda: g.TT((2, 3, 2), (2, 2, 2), sparse_core=True, sparse_factors=True))
 
 
 _UN_TT = {
@@ -1966,7 +1979,9 @@ def _tt_mk(sparse):
 REG["ttensor.mttkrp"] = _multi([("dense", _mttkrp_gen(_tt_mk(False))), ("sparse", _mttkrp_gen(_tt_mk(True)))])
 REG["ttensor.nvecs"] = _multi([("dense", _nvecs_gen(_tt_mk(False))), ("sparse", _nvecs_gen(_tt_mk(True)))])
 REG["ttensor.permute"] = _multi([("dense", _permute_gen(_tt_mk(False), lambda g: g.dshapes())),
-                                 ("sparse", _permute_gen(_tt_mk(True), lambda g: [(2, 3, 2)]))])
+                                 ("sparse", _permute_gen(_tt_mk(True), lambda g: [(2, 3, 2)])),
+                                 ("spfac", _permute_gen(lambda g, sh: g.TT(sh, tuple(min(2, s) for s in sh), sparse_core=True,
+                                                                           sparse_factors=True), lambda g: [(2, 3, 2)]))])
 REG["ttensor.ttv"] = _multi([("dense", _ttv_gen(_tt_mk(False), lambda g: g.dshapes())),
                              ("sparse", _ttv_gen(_tt_mk(True), lambda g: [(2, 3, 2)]))])
 REG["ttensor.ttm"] = _multi([("dense", _ttm_gen(_tt_mk(False), lambda g: g.dshapes())),
